@@ -87,6 +87,9 @@ Proof.
   - break_step E; apply (Inv2_frame tr s); auto.
   - break_step E; apply (Inv2_frame tr s); auto.
   - break_step E; apply (Inv2_frame tr s'); auto.
+  - break_step E; apply (Inv2_frame tr s); auto.
+  - break_step E; apply (Inv2_frame tr s'); auto.
+  - break_step E; apply (Inv2_frame tr s'); auto.
 Qed.
 
 Lemma Inv2_run cap tr : forall s, run cap init tr = Some s -> Inv2 tr s.
@@ -113,11 +116,96 @@ Proof.
   destruct r; simpl; try reflexivity; rewrite (told_own_result cap tr s H t _ Hin) by discriminate; reflexivity.
 Qed.
 
+(* ---- the submitter's level: what transform_and_write_value / patch_port_value finally answer *)
+Lemma result_in_driver_results cap tr s :
+  run cap init tr = Some s ->
+  forall t r, In (t, r) (results s) -> r <> TQueueFull -> lookup t (driver_results tr) = Some r.
+Proof.
+  intros H t r Hin Hq. pose proof (Inv_run cap tr s H) as I. pose proof (Inv2_run cap tr s H) as J.
+  apply In_lookup.
+  - unfold driver_results. apply NoDup_combine_fst.
+    pose proof (surviving_nodup _ _ _ I) as N. rewrite (iB _ _ _ I), map_app in N. exact (NoDup_app_l _ _ N).
+  - apply (jR _ _ J); assumption.
+Qed.
+
+Lemma not_failed_of_result cap tr s t r :
+  run cap init tr = Some s -> In (t, r) (results s) -> r <> TQueueFull -> memb t (failed tr) = false.
+Proof.
+  intros H Hin Hq. pose proof (Inv_run cap tr s H) as I. apply memb_false. intros Hf.
+  apply (iF _ _ _ I) in Hf. apply Hq. exact (NoDup_fst_functional _ _ _ _ (results_nodup _ _ _ I) Hin Hf).
+Qed.
+
+Lemma told_one_accepted cap pre s1 e s2 :
+  run cap init pre = Some s1 -> step cap s1 e = Some s2 -> told_one pre e = true.
+Proof.
+  intros H1 H2. pose proof (Inv_run cap pre s1 H1) as I. destruct e; try reflexivity.
+  - (* Told *)
+    break_step H2. apply tres_eqb_eq in Heqb0. subst t0. apply lookup_In in Heqo. simpl.
+    destruct r; simpl.
+    + rewrite (not_failed_of_result cap pre s2 t TOk H1 Heqo) by discriminate.
+      rewrite (result_in_driver_results cap pre s2 H1 t TOk Heqo) by discriminate. reflexivity.
+    + rewrite (not_failed_of_result cap pre s2 t TExc H1 Heqo) by discriminate.
+      rewrite (result_in_driver_results cap pre s2 H1 t TExc Heqo) by discriminate. reflexivity.
+    + apply memb_In. apply (iF _ _ _ I). exact Heqo.
+  - (* ApiTold *)
+    break_step H2. apply lookup_In in Heqo. apply Bool.eqb_prop in Heqb0. subst ok. simpl.
+    destruct t0; simpl.
+    + rewrite (not_failed_of_result cap pre s2 t TOk H1 Heqo) by discriminate.
+      rewrite (result_in_driver_results cap pre s2 H1 t TOk Heqo) by discriminate. reflexivity.
+    + rewrite (result_in_driver_results cap pre s2 H1 t TExc Heqo) by discriminate. apply Bool.orb_true_r.
+    + apply Bool.orb_true_iff. left. apply memb_In. apply (iF _ _ _ I). exact Heqo.
+Qed.
+
+Lemma told_ok_from_accepted cap tr : forall pre s,
+  run cap init (pre ++ tr) = Some s -> told_ok_from (rev pre) tr = true.
+Proof.
+  induction tr as [|e tr IH]; intros pre s H; [reflexivity|].
+  simpl. apply andb_true_intro. split.
+  - rewrite rev_involutive. apply run_split in H. destruct H as (s1 & s2 & H1 & H2 & _).
+    exact (told_one_accepted cap pre s1 e s2 H1 H2).
+  - replace (e :: rev pre) with (rev (pre ++ [e])) by (rewrite rev_app_distr; reflexivity).
+    apply (IH (pre ++ [e]) s). rewrite <- app_assoc. exact H.
+Qed.
+
+Corollary told_ok_accepted cap tr s : run cap init tr = Some s -> told_ok tr = true.
+Proof. intros H. exact (told_ok_from_accepted cap tr [] s H). Qed.
+
+(* a submitter that is told OK had its value started at the driver (and the driver returned); one that is told QueueFull had
+   its ticket dropped, and a dropped ticket's submitter is never told anything else *)
+Theorem submitter_level cap tr s pre e post :
+  run cap init tr = Some s -> tr = pre ++ e :: post ->
+  match e with
+  | Told t r =>
+      (r = TQueueFull <-> In t (failed pre)) /\ (r <> TQueueFull -> lookup t (driver_results pre) = Some r /\ In t (map snd (took pre)))
+  | ApiTold t true => ~ In t (failed pre) /\ lookup t (driver_results pre) = Some TOk /\ In t (map snd (took pre))
+  | ApiTold t false => In t (failed pre) \/ lookup t (driver_results pre) = Some TExc
+  | _ => True
+  end.
+Proof.
+  intros H ->. apply run_split in H. destruct H as (s1 & s2 & H1 & H2 & _).
+  pose proof (Inv_run cap pre s1 H1) as I.
+  assert (forall t r, lookup t (driver_results pre) = Some r -> In t (map snd (took pre))) as Htook.
+  { intros t r Hl. apply lookup_In in Hl. unfold driver_results in Hl. exact (in_combine_l _ _ _ _ Hl). }
+  destruct e; try exact Logic.I.
+  - break_step H2. apply tres_eqb_eq in Heqb0. subst t0. apply lookup_In in Heqo. split; [split|].
+    + intros ->. apply (iF _ _ _ I). exact Heqo.
+    + intros Hf. apply (iF _ _ _ I) in Hf. exact (NoDup_fst_functional _ _ _ _ (results_nodup _ _ _ I) Heqo Hf).
+    + intros Hq. pose proof (result_in_driver_results cap pre s2 H1 t r Heqo Hq) as L. split; [exact L|exact (Htook _ _ L)].
+  - break_step H2. apply lookup_In in Heqo. apply Bool.eqb_prop in Heqb0. subst ok.
+    destruct t0; simpl.
+    + pose proof (result_in_driver_results cap pre s2 H1 t TOk Heqo) as L. specialize (L ltac:(discriminate)).
+      repeat split; [|exact L|exact (Htook _ _ L)].
+      apply memb_false. apply (not_failed_of_result cap pre s2 t TOk H1 Heqo). discriminate.
+    + right. apply (result_in_driver_results cap pre s2 H1 t TExc Heqo). discriminate.
+    + left. apply (iF _ _ _ I). exact Heqo.
+Qed.
+
 (* every clause of the executable specification (Spec.v, the oracle run against the implementation) holds of every trace
    the model accepts; [all_answered] is a liveness clause, only checked on drained runs *)
 Theorem spec_holds_of_accepted cap tr s : run cap init tr = Some s -> spec_code cap false tr = 0.
 Proof.
   intros H. unfold spec_code.
   rewrite (reads_exclusive_accepted cap tr s H), (writes_exclusive_accepted cap tr s H), (write_order_prefix cap tr s H),
-    (drops_ok_accepted cap tr s H), (notify_ok_accepted cap tr s H), (results_ok_accepted cap tr s H). reflexivity.
+    (drops_ok_accepted cap tr s H), (notify_ok_accepted cap tr s H), (results_ok_accepted cap tr s H),
+    (told_ok_accepted cap tr s H). reflexivity.
 Qed.
